@@ -51,7 +51,7 @@ def selftest_records(records):
     out = []
     base = [r for r in records if r["done"] and "km_master" in r["log"] and "sh_random" in r["log"]]
     if not base:
-        raise Machinery("selftest: no completed TLS <= 1.2 record")
+        return out
     r = base[0]
     for k, (field, fn) in enumerate([("sh_random", lambda v: v[:56]), ("km_master", lambda v: "48:" + "00" * 48),
                                      ("ch_suites", lambda v: v[:-1]), ("cert_leaf", lambda v: v[:-1] + ("0" if v[-1] != "0" else "1"))]):
@@ -88,6 +88,13 @@ def run(ctx):
         if not any(i == len(allrecs) + k and f["field"] == field for i, f in rejects):
             raise Machinery("binding self-test: corrupted log field %s was accepted - the judge constrains nothing" % field)
     rejects = [(i, f) for i, f in rejects if i < len(allrecs)]
+    if not st_recs and not rejects:
+        raise Machinery("selftest: no completed TLS <= 1.2 record and nothing rejected (vacuous)")
+    cands = to_cands(allrecs, rejects)
+
+    def same(facts, sig):
+        return facts.get("field") == sig.get("field") and facts.get("cause") == sig.get("cause")
+    ctx.candidates(binary, cands, reproduce=T.BatchReproducer(ctx, "C28", cands, lambda cs: run_cases(ctx, binary, cs, "repro"), same=same))
 
     populated = {}
     for r in allrecs:
@@ -112,11 +119,6 @@ def run(ctx):
                        "with the wire; non-trivial = the handshake completed (all log parts populated); pairs from the C24 generator "
                        "that must complete, plus seeded random pairs")
     ctx.log("C28 observations: %s" % json.dumps(cov))
-    cands = to_cands(allrecs, rejects)
-
-    def same(facts, sig):
-        return facts.get("field") == sig.get("field") and facts.get("cause") == sig.get("cause")
-    ctx.candidates(binary, cands, reproduce=T.BatchReproducer(ctx, "C28", cands, lambda cs: run_cases(ctx, binary, cs, "repro"), same=same))
 
 
 def replay(ctx, path):
